@@ -15,7 +15,16 @@ pub fn run(ctx: &Ctx, def: PropDef) -> i32 {
         Ok(p) if !p.is_empty() => def.subs.into_iter().filter(|s| s.name().starts_with(&p)).collect(),
         _ => def.subs,
     };
-    let results: Vec<SubResult> = engine::run_all(ctx, id, subs);
+    // regression tier: saved minimal failing inputs (found while running the checks against
+    // seeded changes) are replayed first through the same oracles, without proptest
+    let (reg_n, reg_skipped, reg_violation) = replay_regress(ctx, id, &subs);
+    let mut results: Vec<SubResult> = engine::run_all(ctx, id, subs);
+    if let Some(v) = reg_violation {
+        let mut r = SubResult::new("regress");
+        r.evaluations = reg_n;
+        r.violation = Some(v);
+        results.push(r);
+    }
     let wall = t0.elapsed().as_secs_f64();
 
     // known findings: print one line per listed finding of this property
@@ -36,6 +45,10 @@ pub fn run(ctx: &Ctx, def: PropDef) -> i32 {
     }
 
     let mut extra = BTreeMap::new();
+    extra.insert("regression_cases_replayed".to_string(), json!(reg_n));
+    if reg_skipped > 0 {
+        extra.insert("regression_cases_skipped_unknown_subcheck".to_string(), json!(reg_skipped));
+    }
     if !known_counts.is_empty() {
         extra.insert("known_finding_cases_excluded".to_string(), json!(known_counts));
     }
@@ -89,6 +102,51 @@ pub fn run(ctx: &Ctx, def: PropDef) -> i32 {
         }
     );
     code
+}
+
+/// replay replays/regress/<id>/*.json; returns (replayed, skipped, first violation)
+fn replay_regress(ctx: &Ctx, id: &str, subs: &[Box<dyn engine::SubCheck>]) -> (u64, u64, Option<Violation>) {
+    let dir = ctx.verif_dir.join("replays").join("regress").join(id);
+    let mut files: Vec<std::path::PathBuf> = match std::fs::read_dir(&dir) {
+        Ok(rd) => rd.flatten().map(|e| e.path()).filter(|p| p.extension().map(|x| x == "json").unwrap_or(false)).collect(),
+        Err(_) => return (0, 0, None),
+    };
+    files.sort();
+    let family = |s: &str| -> String {
+        match s.rsplit_once('/') {
+            Some((a, b)) if b.chars().all(|c| c.is_ascii_digit()) => a.to_string(),
+            _ => s.to_string(),
+        }
+    };
+    std::env::set_var("VERIF_REGRESS", "1");
+    let (mut n, mut skipped) = (0u64, 0u64);
+    let mut first = None;
+    for f in files {
+        let Ok(text) = std::fs::read_to_string(&f) else { continue };
+        let Ok(raw) = serde_json::from_str::<Value>(&text) else { continue };
+        let name = raw["subcheck"].as_str().unwrap_or("");
+        let sub = subs.iter().find(|s| s.name() == name).or_else(|| subs.iter().find(|s| family(&s.name()) == family(name)));
+        let Some(sub) = sub else {
+            skipped += 1;
+            continue;
+        };
+        match sub.replay(ctx, &raw["case"]) {
+            Ok(Ok(_)) => n += 1,
+            Ok(Err(fail)) if !fail.inconclusive => {
+                n += 1;
+                if first.is_none() {
+                    // the regression file itself is the replay file
+                    println!("VIOLATION property={} replay={}", id, f.display());
+                    println!("  subcheck={} signature={} (regression case)", sub.name(), fail.signature);
+                    println!("  {}", fail.msg);
+                    first = Some(Violation { property: id.to_string(), subcheck: sub.name(), case: raw["case"].clone(), fail });
+                }
+            }
+            _ => skipped += 1,
+        }
+    }
+    std::env::remove_var("VERIF_REGRESS");
+    (n, skipped, first)
 }
 
 pub fn replay(ctx: &Ctx, def: PropDef, path: &Path) -> i32 {
